@@ -31,7 +31,8 @@ PROP = dict(
           "often per case): shrinkRecvBuffer() / Buffer::shrink() from inside the receive callback right after a partial consumption, from "
           "the send-complete callback and between steps, shrinkSendBuffer() from both callbacks and between sends while the send queue is "
           "partly drained and non-empty, and receive callbacks that copy (construct / assign) the Buffer they are given; one close event in ~45% of "
-          "the cases: peer shutdown(SHUT_WR), peer close() after draining, peer close() with unread data (reset), harness-side "
+          "the cases: peer shutdown(SHUT_WR), peer close() after draining, peer close() with unread data (reset), peer writes a block (1/700/3000/70000/random bytes) and goes away abortively in the same "
+          "step (unread inbound data pending at the peer, or SO_LINGER {1,0} on TCP), harness-side "
           "disable()+destroy outside a callback / inside the receive / send-complete / read-zero callback. Then the peer reads "
           "everything and the loop is pumped until every stream is complete or a stall is established. "
           "grid: the same with transport, size class of the first sends, enabled-at-start, threshold, consumption pattern and close "
@@ -39,21 +40,29 @@ PROP = dict(
           "tcp: TcpServer with 1-3 (later up to 5) raw clients incl. stop()+start(); TcpClient against a raw listener with and without "
           "auto-reconnect; TcpAcceptor / TcpConnector handing a TcpConnection to the harness; TcpServer<->TcpClient in one loop; "
           "inet loopback (7/10) or unix path sockets; same step alphabet plus disconnect(token) / stop() / disconnect() from outside "
-          "and from inside the receive, send-complete and disconnected callbacks and shutdown(SHUT_WR) once everything is flushed. "
+          "and from inside the receive, send-complete and disconnected callbacks and shutdown(SHUT_WR) once everything is flushed; on TcpClient (and harness-owned TcpConnection) links the receive callback is "
+          "re-registered on the live connection with thresholds going up and down ({0,1,4,7,8,16,64,100,1024,4096}) - only when nothing "
+          "is buffered unpresented - followed by a peer write sized to reach the new threshold but, when lowered, not the old one. "
           "Monitors: raw peer - every byte read equals f at the next offset and never exceeds what send() accepted; receive callback "
           "- buffer content equals f[consumed, consumed+readable), never fewer bytes than presented before, at least the threshold, "
           "nothing after a reported close; shrink and copy - the unread window of the receive buffer and of its copy is byte-identical to "
           "f[consumed, ...) immediately afterwards (a shrunk send queue is judged by what the raw peer then reads); send-complete - bytes in the peer's hands + bytes in the kernel queues (FIONREAD/SIOCOUTQ) "
           ">= bytes accepted by send() so far; close report - at most once, only after the peer closed, and for orderly closes only "
-          "after all preceding bytes are in the receive buffer and presented (or fewer than the threshold remain); end of case - "
+          "after all preceding bytes are in the receive buffer and presented (or fewer than the threshold remain), for reset-type closes "
+          "only after everything the library already held plus everything readable in the descriptor (FIONREAD) right after the peer went "
+          "away is presented; after a re-registered threshold - once the peer's bytes are all in the receive buffer, everything is "
+          "presented unless fewer bytes than the CURRENT threshold are unconsumed; end of case - "
           "every stream whose two ends are still up is complete, else a stall is reported only if the kernel queues of the link are "
           "observed empty while the loop made no progress for 4 passes. "
           "A case is non-trivial when it produced a send backlog (send before enable, EAGAIN, partial write, append behind a queue), "
           "re-presented unconsumed bytes together with later data, or contained a close; distinct = distinct hashes of "
           "(configuration, script)"),
     assumptions=[
-        "a peer close that resets the connection (close() with unread data, or data still queued towards a closed peer) is judged "
-        "leniently: streams must be correct prefixes and the close must be reported at most once; the strict 'after all preceding "
+        "a peer close that resets the connection (close() with unread data, SO_LINGER 0, or data still queued towards a closed peer) is "
+        "judged leniently for what may be lost in the kernel: streams must be correct prefixes and the close must be reported at most "
+        "once; but bytes the library already held, or that FIONREAD showed readable in its descriptor right after the peer went away "
+        "(Linux returns queued data before the pending ECONNRESET/EPIPE on unix and TCP sockets), must be presented before the close "
+        "report; bytes of the peer that were still unsent in its own kernel queue are not demanded; the strict 'after all preceding "
         "data' form is applied to shutdown(SHUT_WR) and to close() with nothing outstanding in either direction",
         "when the library is told the peer closed (read-zero / disconnected) it tears the connection down; bytes still queued for "
         "sending at that point, or at a harness-side disconnect(), are not required to arrive (prefix only)",
@@ -94,5 +103,8 @@ PROP = dict(
                                "tcp_server_connected", "tcp_client_connected", "tcp_client_reconnected",
                                "tcp_acceptor_connected", "tcp_connector_connected", "server_stop_start", "tbox_half_close",
                                "shrink_recv_with_unread_behind_consumed_prefix", "shrink_send_with_partly_drained_queue",
-                               "recv_buffer_copied_in_callback", "recv_buffer_copied_behind_consumed_prefix"]},
+                               "recv_buffer_copied_in_callback", "recv_buffer_copied_behind_consumed_prefix",
+                               "peer_abortive_close_with_data_pending", "close_after_reset_checked",
+                               "tcpclient_threshold_lowered_while_connected", "tcpclient_threshold_raised_while_connected",
+                               "rethreshold_presentation_checked", "rethreshold_between_new_and_old_threshold"]},
 )
